@@ -13,7 +13,7 @@ import (
 const poolsPath = "github.com/basecomplextech/baselibrary/pools"
 
 func init() {
-	props["C18"] = &propInfo{Level: "other", Explanation: "Decides structural necessary conditions of 'a recycled object never carries state of its previous use, and an object in use is never handed to another goroutine': (R18.1) for every pools.Pool.Put(x) in the module, a must-dataflow over the release path (the function containing Put and the reset methods it calls, recursively into struct-typed fields) proves that every field of the pooled struct is overwritten, truncated to length 0, reset through its own Reset/reset method, or is in a reasoned keep-table; (R18.2) lockset: every access to a field in the frozen guarded-by table happens with its mutex held (see C19 for mpx.client); (R18.3) recycle gates: the functions that return a state to its pool are reachable only through the reference-count / Swap(nil) gate. Not decided: general data-race freedom, equivalence of concurrent and sequential results (schedules).",
+	props["C18"] = &propInfo{Level: "other", Explanation: "Decides structural necessary conditions of 'a recycled object never carries state of its previous use, and an object in use is never handed to another goroutine': (R18.1) for every pools.Pool.Put(x) in the module, a must-dataflow over the release path (the function containing Put and the reset methods it calls, recursively into struct-typed fields) proves that every field of the pooled struct is overwritten, truncated to length 0, reset through its own Reset/reset method, or is in a reasoned keep-table; (R18.2) lockset: every access to a field in the frozen guarded-by table happens with its mutex held (see C19 for mpx.client); (R18.3) no use after release: guarded may-release summaries (which parameter a function may hand to pools.Pool.Put, under which nil/flag conditions) are propagated through the call graph, and no function touches an object again after a call that may have released it - the releasing goroutine would race with the next owner. Not decided: general data-race freedom, equivalence of concurrent and sequential results (schedules).",
 		Trusted: []string{"sync.Pool semantics", "keep-table reasons in rules_c18.go (mutexes, preallocated backing arrays)"}}
 
 	register(&Rule{ID: "R18.1", Props: []string{"C18", "C04", "C11", "C09", "C03", "C12"}, Floor: 40,
